@@ -83,8 +83,9 @@ def run_history(ctx, rng, cfg=None):
     with torch.no_grad():
         for c in range(nctx):
             with Calibration(momentum=momentum, streamline=streamline):
-                for b in range(rng.randrange(1, 7 if c == 0 else 4)):
-                    mag = 10.0 ** rng.uniform(-4, 4) if rng.random() < 0.8 else rng.choice([127.0, 448.0, 57344.0, 1.0])
+                mags = (cfg or {}).get("mags") if c == 0 else None
+                for b in range(len(mags) if mags else rng.randrange(1, 7 if c == 0 else 4)):
+                    mag = mags[b] if mags else (10.0 ** rng.uniform(-4, 4) if rng.random() < 0.8 else rng.choice([127.0, 448.0, 57344.0, 1.0]))
                     x = (torch.randn(shape, generator=g) * mag).to(dt)
                     if rng.random() < 0.15:
                         x = x / x.abs().max() * torch.tensor(mag, dtype=dt)    # absmax exactly = mag (sentinel probes: scale exactly 1)
@@ -228,6 +229,12 @@ def run(ctx, directed=True):
     cfgs = [None] * n
     if directed:
         cfgs = [{"momentum": 0.0}, {"momentum": 0.5}, {"momentum": 0.5, "F": "f32", "act": "qint8"}] + cfgs
+        # every run: slowly varying histories of small (and large) magnitudes for every activation qtype and dtype — the scales
+        # are then of the order of 1e-8 … 1e-5 (resp. large), where an update of one step is small in absolute terms
+        for F_ in ("f32", "f16", "bf16"):
+            for act_ in ("qint8", "qfloat8_e4m3fn", "qfloat8_e5m2"):
+                for mom_, mags_ in ((0.9, [1e-3, 3e-3, 3e-3, 3e-3, 3e-3, 3e-3]), (0.5, [1e-5, 2e-5, 4e-5, 4e-5]), (0.9, [300.0, 900.0, 900.0])):
+                    cfgs.insert(0, {"momentum": mom_, "F": F_, "act": act_, "mags": mags_, "streamline": False})
     for cfg in cfgs:
         h = run_history(ctx, rng, cfg)
         ctx.evaluations += 1
